@@ -61,6 +61,12 @@ def build_docs(rng, n_create, n_delete, n_other, n_replace, two_ids, dup_ids=Fal
     if two_ids and len(docs) >= 2:
         j = rng.randrange(len(docs))
         docs[j] = docs[j].replace('<roID>RO</roID>', '<roID>OTHER</roID>', 1)
+    if rng.random() < 0.5 and len(docs) >= 2:
+        # hand the message IDs out again in a random order: the roCreate need not be the first message
+        import re
+        ids_ = [re.search(r'<messageID>(\d+)</messageID>', d).group(1) for d in docs]
+        rng.shuffle(ids_)
+        docs = [re.sub(r'<messageID>\d+</messageID>', '<messageID>%s</messageID>' % i, d, 1) for d, i in zip(docs, ids_)]
     return docs
 
 
